@@ -7,6 +7,7 @@
 package commit
 
 import (
+	"encoding/binary"
 	"io"
 	"math"
 )
@@ -266,7 +267,7 @@ func vLemmaCommitClone(idv uint64, chunk Chunk, b0 *Buffer) {
 //@ lemma props=C13
 func vLemmaCommitReadFrom(src io.Reader) {
 	vAssume(vReadErr != nil)
-	vReadFailed = false
+	vReadFailed, vLinked = false, false
 	var c Commit
 	_, err := c.ReadFrom(src)
 	vAssert("nil-only-if-every-read-succeeded", err != nil || !vReadFailed)
@@ -295,7 +296,7 @@ var vStopOnFirst bool // ghost: the callback of the lemma returns an error
 //@ lemma props=C13,C05,C06
 func vLemmaLogRange(l *Log, cbErr error) {
 	vAssume(l != nil && vReadErr != nil && io.EOF != nil)
-	vReadFailed = false
+	vReadFailed, vLinked = false, false
 	vDelivered, vRangeDepth, vTopElems = 0, 0, 0
 	vStopOnFirst = cbErr != nil
 	err := l.Range(func(c Commit) error {
@@ -312,7 +313,52 @@ func vLemmaLogRange(l *Log, cbErr error) {
 //@ loop target=commit.readChunksFrom index=0 props=C13,C05
 func vLoopReadChunks(v []header, i int, size uint64) {
 	vInvariant(0 <= i && uint64(len(v)) == size && !vReadFailed)
+	// linked to a written stream (vLemmaBufferCodecAgrees): element i is the i-th twelve bytes, and the header decoded
+	// from the recorded element is what the writer recorded
+	vInvariant(!vLinked || (vReadFulls == i && uint64(i) <= size && size < 1<<20 &&
+		(!(vTokElemSet && 0 <= vTokK && vTokK < i) || vHeaderOf(v[vTokK], vTokElem))))
 	vBody()
+}
+
+// vHeaderOf: the header is what the writer's twelve bytes say - block, start of the run, base offset, big-endian
+func vHeaderOf(h header, e [12]byte) bool {
+	return uint32(h.Chunk) == binary.BigEndian.Uint32(e[0:4]) && h.Start == binary.BigEndian.Uint32(e[4:8]) && h.Value == binary.BigEndian.Uint32(e[8:12])
+}
+
+// Buffer.WriteTo / ReadFrom agree (C05, C06: the serialized log file): over the linked token streams, a buffer that was
+// written without a failure and read back without a failure has the same column name, writing position, number of
+// runs, run headers (block, start, base offset - for one arbitrary run, hence for all), bytes, and the writing block
+// of its last run; a failed write or read is reported.
+//
+//@ lemma props=C05,C06,C13
+func vLemmaBufferCodecAgrees(b *Buffer, dst io.Writer, src io.Reader, k int) {
+	vAssume(b != nil && len(b.chunks) < 1<<20 && len(b.buffer) < 1<<30 && vReadErr != nil && vTokErr != nil)
+	vLinked = true
+	vTokN, vTokRead, vTokKindBad, vReadFulls, vTokElemSet, vTokFail, vReadFailed, vUvarintN = 0, 0, false, 0, false, false, false, 0
+	vTokK = k
+	_, werr := b.WriteTo(dst)
+	vAssert("write-failure-is-reported", (werr != nil) == vTokFail)
+	if vTokFail {
+		return
+	}
+	vAssert("four-tokens-written", vTokN == 4)
+	var b2 Buffer
+	_, rerr := b2.ReadFrom(src)
+	vAssert("read-failure-is-reported", (rerr != nil) == vReadFailed)
+	if vReadFailed {
+		return
+	}
+	vAssert("reads-the-token-kinds-in-the-order-written", !vTokKindBad && vTokRead == 4)
+	vAssert("column-name", b2.Column == b.Column)
+	vAssert("writing-position", b2.last == b.last)
+	vAssert("same-number-of-runs", len(b2.chunks) == len(b.chunks))
+	if 0 <= k && k < len(b.chunks) {
+		vAssert("run-header-comes-back:block-start-base", b2.chunks[k].Chunk == b.chunks[k].Chunk && b2.chunks[k].Start == b.chunks[k].Start && b2.chunks[k].Value == b.chunks[k].Value)
+		if k == len(b.chunks)-1 {
+			vAssert("writing-block-is-the-last-run's", b2.chunk == b.chunks[k].Chunk)
+		}
+	}
+	vAssert("bytes", len(b2.buffer) == len(b.buffer) && vForall(0, len(b.buffer), func(i int) bool { return b2.buffer[i] == b.buffer[i] }))
 }
 
 // ---------------------------------------------------------------------------------------------
@@ -530,7 +576,7 @@ func vLemmaSizeChangingMergeKeepsItsPlace(buf []byte, hdrs []header, x0 uint32, 
 	p := int(x0) + i1
 	vAssume(len(w) != i1-i0 && p+4 <= oldLen && buf[p] == byte(Put)|size2|isString && buf[oldLen-1] == 0)
 	vAssume(p+3+(int(buf[p+1])<<8|int(buf[p+2]))+1 == oldLen) // header, two length bytes, the value, offset delta 0: one operation
-	r.SwapBytes(w)                                           // the column has stored merge(value, delta) = w
+	r.SwapBytes(w)                                            // the column has stored merge(value, delta) = w
 	r2 := &Reader{buffer: b.buffer[p:], Offset: at}
 	vAssert("the-store-is-still-decoded", r2.Next() && r2.Type == Put && r2.Index() == uint32(at) && r2.last == oldLen-p)
 	// (what SwapBytes appends is, by vLemmaSwapBytesAppends, a store of the merged value to the same row)
